@@ -232,6 +232,12 @@ def checkMF (c : Case) (sfx : String) (start : Array Rect) (ccs : List CC) (over
       if agree then msg := s!"cc{j}: satisfied flags impl {impl} model {model}"
       agree := false
   if !mf.dropped.isEmpty then stats := bumpStats stats "mf.cases_with_drops" 1
+  -- which constraint carried the flag in the rejected trials: the tried one itself, or an earlier accepted one
+  for t in mf.log do
+    if !t.accepted && t.returned then
+      stats := bumpStats stats (if t.flaggedOwners.all (· == (t.cc, t.sub)) then "mf.reject.flag-on-new-only" else "mf.reject.flag-on-earlier") 1
+  let trace := " ".intercalate ((mf.log.toList.filter (!·.accepted)).map fun t =>
+    s!"[cc{t.cc}.{t.sub} dim{t.dim.toNat'} ({t.con.l},{t.con.r},{ratToString t.con.gap},{t.con.eq}) flagged={t.flaggedOwners}]")
   -- the hook's trial log
   let mut div : Option String := none
   if guarded && !agree then
@@ -263,7 +269,7 @@ def checkMF (c : Case) (sfx : String) (start : Array Rect) (ccs : List CC) (over
         stats := bumpStats stats "mf.positions_compared" 1
     | none => pure ()
   return (some { droppedModel := mf.droppedCCs, brokenModel := mf.brokenCCs, droppedImpl := droppedImpl.eraseDups, guarded := guarded,
-                 flagsAgree := agree, msg := msg }, div, stats)
+                 flagsAgree := agree, msg := trace }, div, stats)
 
 /-- is compound constraint `j` (or an alignment it refers to) in `dropped`? -/
 def excusedBy (ccs : List CC) (dropped : List Nat) (j : Nat) : Bool :=
@@ -352,7 +358,7 @@ def checkLayout (c : Case) : CaseResult := Id.run do
     -- was returned above
     let dropNote := if cls != "makeFeasible-only" then "" else
       match info2 with
-      | some inf => if excusedBy ccs inf.droppedModel j then s!" class=makeFeasible-drop (the model of makeFeasible drops {inf.droppedModel})"
+      | some inf => if excusedBy ccs inf.droppedModel j then s!" class=makeFeasible-drop (the model of makeFeasible drops {inf.droppedModel}; rejected trials: {inf.msg})"
                     else if excusedBy ccs inf.brokenModel j then s!" class=makeFeasible-combined-unchecked (model: flagged unsatisfiable by the unchecked solve of a combined FixedRelativeConstraint, marked satisfied all the same: {inf.brokenModel})"
                     else s!" class=makeFeasible-drop-unguarded (implementation flags drop {inf.droppedImpl}, model {inf.droppedModel}; a solver decision inside the rounding noise)"
       | none => " class=unmodelled"
